@@ -29,7 +29,10 @@ RULE = ('generated world descriptions (0-4 processors of distinct types, 0-6 '
         'reference targets, equality+type for JSON), dispatching disabled on '
         'return, after enabling on_add once then on_world_load(handle, world) '
         'once per handler component. Non-trivial = >=2 entities, references '
-        'of >=2 kinds and >=1 non-reference string containing "$".')
+        'of >=2 kinds and >=1 non-reference string containing "$".'
+        ' Rounds 9-13 added: paths bound to other handles or the world'
+        ' handle moved to another tree between two loads; one-shot iterables'
+        ' in dictionary descriptions; free-text resource names.')
 ANCHORS = [
     'desper/model/world.py::WorldHandle.load',
     'desper/model/world.py::populate_world_from_dict',
